@@ -1,6 +1,9 @@
 package main
 
 import (
+	"context"
+	"crypto/ecdsa"
+	"encoding/binary"
 	"math/big"
 	"math/rand"
 
@@ -14,35 +17,117 @@ import (
 	"verifharness/internal/trace"
 )
 
+// rawStream writes synthetic blocks (signed blocks and transactions, hand-made receipts) through logdb.Writer exactly as
+// writeLogs does for a block that extends the best chain: Write, Commit. No repository, hence no API calls.
+type rawStream struct {
+	w    *world
+	ldb  *logdb.LogDB
+	q    *querier
+	evs  []trace.Ev
+	dead bool
+}
+
+func newRawStream(w *world, run int, scen string, seed int64) *rawStream {
+	ldb, err := logdb.NewMem()
+	must(err)
+	r := &rawStream{w: w, ldb: ldb, q: &querier{rec: w.rec, rng: rand.New(rand.NewSource(w.rng.Int63())), st: w.st}}
+	w.logger = thor.BytesToAddress([]byte("synthetic"))
+	r.q.pools = w.pools()
+	if re := r.write(w.b0, w.b0rcpt); re != nil {
+		fail("genesis logs: %s", re.msg)
+	}
+	r.checkpoint(resetEv(run, 0, scen, seed), w.b0, 4)
+	return r
+}
+
+func (r *rawStream) die(re *realErr, extra trace.Ev) {
+	ev := errorEv(re)
+	for k, v := range extra {
+		ev[k] = v
+	}
+	r.evs = append(r.evs, ev)
+	r.dead = true
+}
+
+func (r *rawStream) checkpoint(ev trace.Ev, best *block.Block, n int) {
+	ev["best"] = r.w.rec.bname(best.Header().ID())
+	t, re := r.w.rec.observe(ev, r.ldb, r.w.st)
+	if re != nil {
+		r.die(re, trace.Ev{"after": ev["e"]})
+		return
+	}
+	r.evs = append(r.evs, ev)
+	qs, re := r.q.run(r.ldb, t, best.Header().Number(), n)
+	r.evs = append(r.evs, qs...)
+	if re != nil {
+		r.die(re, nil)
+	}
+}
+
+// write = one log transaction; on an error the writer is rolled back, as node.writeLogs does.
+func (r *rawStream) write(b *block.Block, rc tx.Receipts) *realErr {
+	wr := r.ldb.NewWriter()
+	re := guard("write", func() error {
+		if err := wr.Write(b, rc); err != nil {
+			return err
+		}
+		return wr.Commit()
+	})
+	if re != nil {
+		if re2 := guard("rollback", wr.Rollback); re2 != nil {
+			return re2
+		}
+	}
+	return re
+}
+
+// put writes blk as the new best block; expectErr = the specification will be asked to agree that the write must fail.
+func (r *rawStream) put(blk, prevBest *block.Block, rc tx.Receipts, n int) (ok bool) {
+	if r.dead {
+		return false
+	}
+	name := r.w.rec.bname(blk.Header().ID())
+	if re := r.write(blk, rc); re != nil {
+		// refused: the table must be what it was. Whether the refusal is right is for the specification to say.
+		r.w.st.WriteErrs++
+		r.checkpoint(trace.Ev{"e": "WriteErr", "b": name, "msg": re.msg}, prevBest, 2)
+		return false
+	}
+	r.w.st.Imports++
+	r.checkpoint(trace.Ev{"e": "Import", "b": name, "trunk": true}, blk, n)
+	return true
+}
+
+func signBlock(b *block.Block, key *ecdsa.PrivateKey) *block.Block {
+	sig, err := crypto.Sign(b.Header().SigningHash().Bytes(), key)
+	must(err)
+	return b.WithSignature(sig)
+}
+
+func (w *world) syntheticEvent(contracts []thor.Address, nTopics int) *tx.Event {
+	ev := &tx.Event{Address: pick(w.rng, contracts)}
+	for ; nTopics > 0; nTopics-- {
+		ev.Topics = append(ev.Topics, w.topic())
+	}
+	if w.rng.Intn(2) == 0 {
+		ev.Data = make([]byte, 1+w.rng.Intn(40))
+		w.rng.Read(ev.Data)
+	}
+	if len(ev.Topics) == 5 {
+		w.st.FiveTopics++
+	}
+	return ev
+}
+
 // runRaw: events with FIVE topics cannot be produced by contract execution (the EVM stops at LOG4), but the log db has
-// five topic columns and the API five topic criteria. A synthetic linear chain (signed blocks and transactions,
-// hand-made receipts) is written through logdb.Writer.Write exactly as writeLogs does for a block that extends the
-// best chain, and queried like the others. No repository, hence no API calls here.
+// five topic columns and the API five topic criteria.
 func runRaw(rec *recorder, seed int64, blocks, nq, run int) ([]trace.Ev, runStat) {
 	st := runStat{Scen: "rawdb", Seed: seed, Nodes: 1}
 	w := newWorld(rec, seed, &st)
 	defer w.net.Close()
 	rng := w.rng
-	ldb, err := logdb.NewMem()
-	must(err)
-	defer ldb.Close()
-	q := &querier{rec: rec, rng: rand.New(rand.NewSource(rng.Int63())), st: &st}
-	w.logger = thor.BytesToAddress([]byte("synthetic"))
-	q.pools = w.pools()
-	var evs []trace.Ev
-	checkpoint := func(ev trace.Ev, best *block.Block, n int) {
-		ev["best"] = rec.bname(best.Header().ID())
-		t := rec.observe(ev, ldb, &st)
-		evs = append(evs, ev)
-		evs = append(evs, q.run(ldb, t, best.Header().Number(), n)...)
-	}
-	write := func(b *block.Block, r tx.Receipts) {
-		wr := ldb.NewWriter()
-		must(wr.Write(b, r))
-		must(wr.Commit())
-	}
-	write(w.b0, w.b0rcpt)
-	checkpoint(resetEv(run, 0, "rawdb", seed), w.b0, 4)
+	r := newRawStream(w, run, "rawdb", seed)
+	defer r.ldb.Close()
 	prev := w.b0
 	contracts := []thor.Address{w.logger, thor.BytesToAddress([]byte("synthetic2"))}
 	for i := 0; i < blocks; i++ {
@@ -52,26 +137,13 @@ func runRaw(rec *recorder, seed int64, blocks, nq, run int) ([]trace.Ev, runStat
 		ntx := rng.Intn(4)
 		for k := 0; k < ntx; k++ {
 			to := w.account()
-			t := w.mkTx(prev.Header().Number(), tx.NewClause(&to))
-			bb.Transaction(t)
+			bb.Transaction(w.mkTx(prev.Header().Number(), tx.NewClause(&to)))
 			rc := &tx.Receipt{}
 			if rng.Intn(100) < 85 {
 				for c := 1 + rng.Intn(2); c > 0; c-- {
 					o := &tx.Output{}
 					for e := rng.Intn(3); e > 0; e-- {
-						nt := pick(rng, []int{0, 1, 3, 5, 5, 5})
-						ev := &tx.Event{Address: pick(rng, contracts)}
-						for ; nt > 0; nt-- {
-							ev.Topics = append(ev.Topics, w.topic())
-						}
-						if rng.Intn(2) == 0 {
-							ev.Data = make([]byte, 1+rng.Intn(40))
-							rng.Read(ev.Data)
-						}
-						if len(ev.Topics) == 5 {
-							st.FiveTopics++
-						}
-						o.Events = append(o.Events, ev)
+						o.Events = append(o.Events, w.syntheticEvent(contracts, pick(rng, []int{0, 1, 3, 5, 5, 5})))
 					}
 					for x := rng.Intn(2); x > 0; x-- {
 						o.Transfers = append(o.Transfers, &tx.Transfer{Sender: w.account(), Recipient: w.account(),
@@ -82,16 +154,136 @@ func runRaw(rec *recorder, seed int64, blocks, nq, run int) ([]trace.Ev, runStat
 			}
 			receipts = append(receipts, rc)
 		}
-		blk := bb.Build()
-		sig, err := crypto.Sign(blk.Header().SigningHash().Bytes(), w.net.Devs[i%nValidators].PrivateKey)
-		must(err)
-		blk = blk.WithSignature(sig)
+		blk := signBlock(bb.Build(), w.net.Devs[i%nValidators].PrivateKey)
 		rec.noteBlock(blk, receipts)
-		write(blk, receipts)
-		st.Imports++
-		checkpoint(trace.Ev{"e": "Import", "b": rec.bname(blk.Header().ID()), "trunk": true}, blk, nq)
+		if !r.put(blk, prev, receipts, nq) {
+			break
+		}
 		prev = blk
 	}
 	st.Blocks = blocks
-	return evs, st
+	return r.evs, st
+}
+
+// runPack binds the packing of the row key (logdb/sequence.go: 28 bits block number, 15 bits tx index, 20 bits log
+// index) and the bounds of newSequence: rows at tx indices around 2^14 and up to 2^15-1, log indices beyond 2^10, heights
+// 2^28-2 and 2^28-1, and the three refusals just beyond (tx index 2^15, height 2^28; the log index bound 2^20 needs a
+// million rows and is probed by -big only). The heights are reached by a fabricated parent id; the specification is told
+// that the high block follows the low ones (it only needs an order of blocks here: nothing is resynchronised).
+func runPack(rec *recorder, seed int64, nq, run int, million bool) ([]trace.Ev, runStat) {
+	st := runStat{Scen: "pack", Seed: seed, Nodes: 1}
+	w := newWorld(rec, seed, &st)
+	defer w.net.Close()
+	rng := w.rng
+	r := newRawStream(w, run, "pack", seed)
+	defer r.ldb.Close()
+	contracts := []thor.Address{w.logger}
+	prev, prevName := w.b0, rec.bname(w.b0.Header().ID())
+	key := w.net.Devs[0].PrivateKey
+	logs := func(nEv, nTr int) *tx.Receipt {
+		o := &tx.Output{}
+		for ; nEv > 0; nEv-- {
+			o.Events = append(o.Events, w.syntheticEvent(contracts, pick(rng, []int{0, 1, 2})))
+		}
+		for ; nTr > 0; nTr-- {
+			o.Transfers = append(o.Transfers, &tx.Transfer{Sender: w.account(), Recipient: w.account(), Amount: big.NewInt(int64(1 + rng.Intn(99)))})
+		}
+		return &tx.Receipt{Outputs: []*tx.Output{o}}
+	}
+	// add builds the next block: parentID is what the block id is derived from; receipts by tx index
+	add := func(parentID thor.Bytes32, nReceipts int, at map[int]*tx.Receipt) bool {
+		to := w.account()
+		bb := new(block.Builder).ParentID(parentID).Timestamp(prev.Header().Timestamp() + 10).TotalScore(prev.Header().TotalScore() + 1).
+			GasLimit(10_000_000).Transaction(w.mkTx(0, tx.NewClause(&to)))
+		receipts := make(tx.Receipts, nReceipts)
+		empty := &tx.Receipt{}
+		for i := range receipts {
+			if rc, ok := at[i]; ok {
+				receipts[i] = rc
+			} else {
+				receipts[i] = empty
+			}
+		}
+		blk := signBlock(bb.Build(), key)
+		name := rec.noteBlock(blk, receipts)
+		rec.facts[name]["p"] = prevName // the order of the synthetic chain (see above)
+		st.Blocks++
+		if !r.put(blk, prev, receipts, nq) {
+			return false
+		}
+		prev, prevName = blk, name
+		return true
+	}
+	// an ordinary low block, then tx indices around 2^14 and at the top of the range
+	add(prev.Header().ID(), 2, map[int]*tx.Receipt{0: logs(2, 1), 1: logs(1, 2)})
+	add(prev.Header().ID(), 32768, map[int]*tx.Receipt{0: logs(1, 1), 16383: logs(2, 1), 16384: logs(1, 0), 32766: logs(0, 2), 32767: logs(3, 1)})
+	// log indices beyond 2^10 (one clause with 1100 events, then a second transaction continuing the count)
+	add(prev.Header().ID(), 3, map[int]*tx.Receipt{1: logs(1100, 3), 2: logs(2, 1)})
+	// tx index 2^15: refused, nothing may change
+	add(prev.Header().ID(), 32769, map[int]*tx.Receipt{0: logs(1, 1), 32768: logs(1, 1)})
+	// heights 2^28-2, 2^28-1, then 2^28: refused
+	var high thor.Bytes32
+	rng.Read(high[:])
+	binary.BigEndian.PutUint32(high[:], logdb.MaxBlockNumber-2)
+	add(high, 2, map[int]*tx.Receipt{0: logs(2, 2), 1: logs(1, 1)})
+	add(prev.Header().ID(), 1, map[int]*tx.Receipt{0: logs(2, 1)})
+	add(prev.Header().ID(), 1, map[int]*tx.Receipt{0: logs(1, 1)})
+	if million && !r.dead {
+		r.evs = append(r.evs, packBound(w, 1<<20, 5, 7)...)
+		r.evs = append(r.evs, packBound(w, 1<<20+1, 6, 7)...)
+	}
+	return r.evs, st
+}
+
+// packBound writes ONE block whose transaction at index ti carries count events into a throw-away log db and reports
+// whether the write was refused and, if not, the position of the newest row as the log db reads it back.
+func packBound(w *world, count int, n uint32, ti int) []trace.Ev {
+	ldb, err := logdb.NewMem()
+	must(err)
+	defer ldb.Close()
+	var pid thor.Bytes32
+	binary.BigEndian.PutUint32(pid[:], n-1)
+	blk := signBlock(new(block.Builder).ParentID(pid).Timestamp(w.b0.Header().Timestamp()+10).GasLimit(10_000_000).Build(), w.net.Devs[0].PrivateKey)
+	ev := &tx.Event{Address: w.logger}
+	o := &tx.Output{Events: make(tx.Events, count)}
+	for i := range o.Events {
+		o.Events[i] = ev
+	}
+	receipts := make(tx.Receipts, ti+1)
+	for i := range receipts {
+		receipts[i] = &tx.Receipt{}
+	}
+	receipts[ti] = &tx.Receipt{Outputs: []*tx.Output{o}}
+	out := trace.Ev{"e": "Pack", "n": n, "ti": ti, "count": count, "err": false, "last": []int{}, "rows": 0}
+	wr := ldb.NewWriter()
+	if re := guard("write", func() error {
+		if err := wr.Write(blk, receipts); err != nil {
+			return err
+		}
+		return wr.Commit()
+	}); re != nil {
+		out["err"], out["msg"] = true, re.msg
+		if re2 := guard("rollback", wr.Rollback); re2 != nil {
+			return []trace.Ev{errorEv(re2)}
+		}
+		return []trace.Ev{out}
+	}
+	var last []*logdb.Event
+	var rest []*logdb.Event
+	if re := guard("query", func() (err error) {
+		if last, err = ldb.FilterEvents(context.Background(), &logdb.EventFilter{Order: logdb.DESC, Options: &logdb.Options{Offset: 0, Limit: 1}}); err != nil {
+			return
+		}
+		// how many rows: everything after the first count-2
+		rest, err = ldb.FilterEvents(context.Background(), &logdb.EventFilter{Range: &logdb.Range{From: n, To: n},
+			Options: &logdb.Options{Offset: uint64(count - 2), Limit: 10}})
+		return
+	}); re != nil {
+		return []trace.Ev{errorEv(re)}
+	}
+	if len(last) == 1 {
+		out["last"] = []uint32{last[0].BlockNumber, last[0].TxIndex, last[0].LogIndex}
+	}
+	out["rows"] = count - 2 + len(rest)
+	return []trace.Ev{out}
 }
